@@ -118,6 +118,10 @@ type Puppet struct {
 
 	SID     wamp.ID
 	Welcome *wamp.Welcome
+
+	// OnMsg, if set before traffic starts, is called by the reader goroutine for every
+	// received message after it was recorded (reactive puppets, e.g. a callee that answers).
+	OnMsg func(m wamp.Message)
 }
 
 func (p *Puppet) String() string { return fmt.Sprintf("P%d(%s)", p.Idx, p.Kind) }
@@ -130,7 +134,11 @@ func (p *Puppet) record(o Obs) {
 	}
 	p.mu.Lock()
 	p.log = append(p.log, o)
+	h := p.OnMsg
 	p.mu.Unlock()
+	if h != nil && o.Msg != nil {
+		h(o.Msg)
+	}
 }
 
 func (p *Puppet) markClosed() {
@@ -142,6 +150,13 @@ func (p *Puppet) markClosed() {
 		p.record(Obs{Closed: true, Frame: -1})
 		close(p.recvClosed)
 	}
+}
+
+// SetOnMsg installs the reactive handler (see OnMsg) race-free.
+func (p *Puppet) SetOnMsg(h func(m wamp.Message)) {
+	p.mu.Lock()
+	p.OnMsg = h
+	p.mu.Unlock()
 }
 
 // Take returns the observations made since the previous Take.
